@@ -73,6 +73,9 @@ check("C10", "exploration", "bounded-exhaustive query enumeration on the real im
 check("C11", "exploration", "bounded-exhaustive corpus x query enumeration on the real implementation",
       "Corpora of n <= 4 (quick) / n <= 5 (thorough) short and long documents with timestamps {10,20,20,30,40}, the query word planted in subsets; for two query words, with and without the sketch pre-filter and a date-range term: as_of_frame in 0..=n and as_of_ts in {5,10,20,25,40,50}; every hit must have id <= as_of_frame / timestamp <= as_of_ts and be among the unfiltered hits; after commit and after close+open.",
       "", "DESIGN.md §3 C11", "corpus")
+check("C12", "exploration", "bounded-exhaustive metadata x caller x entry-point enumeration on the real implementation against an independent policy function",
+      "One corpus holds one embedded frame for every combination of ACL metadata over small alphabets (tenant 6 x visibility 6 x roles 6 x groups 2-3 x principals 3-4 values: absent, valid, mixed case with blanks, JSON-quoted, other tenant, empty, malformed list, non-string list; 1296 frames quick / 2592 thorough). Every caller of a product (tenant 5-7 x subject 2-3 x roles 3-4 x groups 2 values incl. None, blank and differently cased) is sent in Enforce and in Audit mode through search (with and without sketch pre-filter), vec_search_with_embedding_acl, search_adaptive_acl (enabled and disabled), and ask in lex/context-only, hybrid and semantic mode with an embedder, on a live writable handle and on a reopened read-only handle, each call requesting every frame. Oracle: a 40-line policy written from the statement decides (frame, caller); in Enforce no hit, context string, context fragment, citation or answer may name or quote (unique marker word per frame) a denied frame; Enforce without a usable tenant must be an error; Audit must return the hits of the same call without ACL context.",
+      "ask in hybrid/semantic mode orders tied hits by HashMap iteration, so its Audit comparison is by set, decided after calling the context-free baseline three times; over-denial is counted, not flagged.", "DESIGN.md §3 C12", "corpus")
 check("C16", "exploration", "bounded-exhaustive corpus x page-size enumeration on the real implementation",
       "Corpora with m in {1,3,7,20,21,25} (quick) / {1,2,3,7,19,20,21,25,41} (thorough) matching documents a day apart, every third with two snippet slices; a text query and a pure field query; for every page size 1..10 the cursor is followed to the end and the concatenation is compared with one request of top_k = 200: same (frame, range) sequence, constant total_hits; after commit and after close+open.",
       "The legacy LexIndex path cannot be reached in a default build (new files never contain that index).", "DESIGN.md §3 C16", "corpus")
